@@ -13,6 +13,7 @@ mod tp;
 mod tps;
 mod sws;
 mod su;
+mod srs;
 mod rp;
 mod util;
 
@@ -101,6 +102,7 @@ fn main() {
             "tps" => tps::run_case(&f),
             "sws" => sws::run_case(&f),
             "su" => su::run_case(&f),
+            "srs" => srs::run_case(&f),
             "bs" => bs::run_case(&f),
             "sd" => sd::run_case(&f),
             "rv" => rv::run_case(&f),
